@@ -76,7 +76,7 @@ fn allowed(c: u8) -> bool {
 /// an empty run, or one that starts or ends with a dot, is rejected; anything
 /// else (an upper-case letter, for instance) ends the name and stays in the rest.
 #[kani::proof]
-#[kani::unwind(5)]
+#[kani::unwind(4)]
 fn c17_list_name_lex() {
     use crate::lex::Lex;
     use crate::rhs_types::ListName;
